@@ -363,16 +363,22 @@ prop(
     "template (and the embedded templates equal cmd/hidi/hidi-config in the source tree: TestC18Templates); every pre-existing file below user/, "
     "hidi.toml, the blacklist and extra files byte-identical (hash+size+path set), nothing appears below user/; blacklist created from its "
     "template iff missing; absent directory -> exactly the full template tree; a rerun leaves the tree snapshot unchanged. "
-    "Non-trivial = a truncated or longer factory file together with user files, or a crash state; distinct by case hash.",
+    "1/4 of the states have backup / temporary entries next to factory files (<file>.tmp, <file>~, .<file>.swp, ... as files or directories). "
+    "TestC18Kill interrupts REAL runs instead of constructing their state: a child process runs the upkeep under strace fault injection "
+    "(SIGKILL in place of its N-th file-changing syscall, N generated), then upkeep runs again and owes the factory files and the protected "
+    "files of the state before the interrupted run, and a third run changes nothing. "
+    "Non-trivial = a truncated or longer factory file together with user files, or a crash state (constructed or real); distinct by case hash.",
     [
         dict(test="TestC18", bin="hidi", shards=16, checks_quick=1200, checks_thorough=12000),
+        dict(test="TestC18Kill", bin="hidi", shards=16, checks_quick=40, checks_thorough=1200, shrinktime="20s"),
         dict(test="TestC18Templates", bin="hidi", shards=1, replayable=False),
     ],
     level_text="Generated directory states incl. constructed crash states (interruption after any entry of the deterministic walk, at a generated "
                "byte), tree-diff oracle against the embedded templates.",
-    level_note="Trusted: real files on the sandbox file system; the crash model is 'files written so far are complete, the current one is a prefix' "
-               "(no torn directory entries, no reordering of writes across files).",
-    technique="property-based testing (rapid) over generated directory states + constructed crash states, tree-diff oracle, idempotence",
+    level_note="Trusted: real files on the sandbox file system; the constructed crash model is 'files written so far are complete, the current one is a prefix' "
+               "(no torn directory entries, no reordering of writes across files); the real interruptions (TestC18Kill) stop the process at a syscall "
+               "boundary (no torn single write) and need strace/ptrace, without which that part counts its cases as skipped.",
+    technique="property-based testing (rapid) over generated directory states + constructed crash states + fault injection (process killed at a generated syscall of a real run), tree-diff oracle, idempotence",
     engine="hidi-inpackage",
 )
 
